@@ -348,7 +348,10 @@ def main(tier: str) -> int:
     n = 60 if tier == 'quick' else 4000
     n_compile = 6 if tier == 'quick' else 200
     scratch = run.scratch()
-    run.require('builds', 'find_fqn_calls_observed', 'emitted_types_checked', 'spec_unique',
+    # the online observer hooks ast_view.find_fqn where the builder imports it; a library that
+    # resolves names through another entry point is still decided by the build-level verdicts
+    # and the compiled sample, so the observer's count is reported, not required
+    run.require('builds', 'emitted_types_checked', 'spec_unique',
                 'spec_several', 'spec_none', 'spec_wrong-kind', 'site_port-type',
                 'site_formal-type', 'site_claim-reply', 'programs_type_checked',
                 'spellings_of_shared_simple_names', 'constructed_ambiguities',
